@@ -132,8 +132,13 @@ fn exercise(tr: &mut Trace, r: &mut Rng, c: &Cfg, fam: u64, text: &[u8]) {
                    "d":c.d,"q":c.q,"n":c.n,"b":bytes_json(text)}));
     let cfg = c.dsv();
     // two ways to the same API: owned Dsv (dispatching index builder) or DsvRef over a scalar index
-    let owned = Dsv::parse_with_config(text, &cfg);
-    let sidx = build_index_scalar(text, &cfg);
+    let (owned, sidx) = match guarded(|| (Dsv::parse_with_config(text, &cfg), build_index_scalar(text, &cfg))) {
+        Ok(x) => x,
+        Err(_) => {
+            tr.emit(json!({"e":"rows","rows":[],"r":-2}));
+            return;
+        }
+    };
     let dref = succinctly::dsv::DsvRef::new(text, &sidx);
     let rows_iter = || if via_ref { dref.rows() } else { owned.rows() };
     let row_at = |n: usize| if via_ref { dref.row(n) } else { owned.row(n) };
@@ -190,9 +195,16 @@ fn exercise(tr: &mut Trace, r: &mut Rng, c: &Cfg, fam: u64, text: &[u8]) {
     // cursor walks
     for _ in 0..2 {
         let mut cur: DsvCursor = cursor();
-        let snap = |cur: &DsvCursor| (b01(cur.at_end()), bytes_json(cur.current_field()), cur.position());
+        // (a panic inside at_end / current_field / position is data too: r = -2)
+        let snap = |cur: &DsvCursor| {
+            guarded(|| (b01(cur.at_end()), bytes_json(cur.current_field()), cur.position() as i64))
+                .unwrap_or((0, json!([]), -2))
+        };
         let (end, f, pos) = snap(&cur);
         tr.emit(json!({"e":"cur","op":"new","a":0,"ok":0,"end":end,"f":f,"r":pos}));
+        if pos == -2 {
+            continue;
+        }
         for _ in 0..r.range(2, 9) {
             let (op, a, res) = match r.below(7) {
                 0 | 1 | 2 => ("nf", 0u64, guarded(|| cur.next_field())),
@@ -206,6 +218,9 @@ fn exercise(tr: &mut Trace, r: &mut Rng, c: &Cfg, fam: u64, text: &[u8]) {
                 Ok(ok) => {
                     let (end, f, pos) = snap(&cur);
                     tr.emit(json!({"e":"cur","op":op,"a":clamp_i(a),"ok":b01(ok),"end":end,"f":f,"r":pos}));
+                    if pos == -2 {
+                        break;
+                    }
                 }
                 Err(_) => {
                     tr.emit(json!({"e":"cur","op":op,"a":clamp_i(a),"ok":0,"end":0,"f":[],"r":-2}));
@@ -289,7 +304,7 @@ fn replay(args: &Args) {
             for (text, vname) in &variants {
                 cases += 1;
                 let exp = expected_rows(b, text);
-                let dsv = Dsv::parse_with_config(text, &c.dsv());
+                let parsed = guarded(|| Dsv::parse_with_config(text, &c.dsv()));
                 let mut bad = |api: &str, n: i64, i: i64, got: Value, want: Value| {
                     if out.n < 400 {
                         out.emit(json!({"api":api,"variant":vname,"d":c.d,"q":c.q,"nl":c.n,"cls":cls,"text":bytes_json(text),
@@ -300,6 +315,13 @@ fn replay(args: &Args) {
                 };
                 let exp_json = Value::Array(
                     exp.iter().map(|row| Value::Array(row.iter().map(|f| bytes_json(f)).collect())).collect());
+                let dsv = match parsed {
+                    Ok(d) => d,
+                    Err(_) => {
+                        bad("rows", -1, -1, json!("PANIC"), exp_json.clone());
+                        continue;
+                    }
+                };
                 // iteration
                 calls += 1;
                 match guarded(|| collect_rows(dsv.rows())) {
